@@ -233,11 +233,12 @@ def integrate(
         raise ValueError("No recordings are set. Please set them.")
     rec_inds = module.recordings.rec_index.to_numpy()
     rec_states = module.recordings.state.to_numpy()
-    # Recordings of synaptic states refer to the global edge index, but synaptic states
-    # are stored per synapse type.
+    # Recordings of synaptic states and currents refer to the global edge index, but
+    # they are stored per synapse type.
     edge_inds_within_type = module._edge_inds_within_type()
+    edge_state_names = module._edge_state_names()
     rec_inds = [
-        edge_inds_within_type[ind] if state in module.synapse_state_names else ind
+        edge_inds_within_type[ind] if state in edge_state_names else ind
         for state, ind in zip(rec_states, rec_inds)
     ]
 
